@@ -153,6 +153,9 @@ func main() {
 	for _, s := range sets {
 		defer s.px.Stop()
 	}
+	// (composed here with the others, before any traffic flows)
+	pan := mk("panicky", panickySet, panickyNames, nil)
+	defer pan.px.Stop()
 
 	type job struct {
 		set   *pset
@@ -383,6 +386,10 @@ func main() {
 		}(ji, j)
 	}
 	wg.Wait()
+	panickyInjector(run, be, pan.px)
+	portReuse(run, be, sets[0].px)
+	run.Require("requests_whose_injector_panicked", 6)
+	run.Require("connections_from_the_address_of_an_earlier_connection", 8)
 	run.Require("requests_judged_h2", 50)
 	run.Require("requests_judged_http/1.1", 50)
 	run.Require("requests_judged_conn_ja3-fails", 20)
